@@ -5,8 +5,8 @@
    evaluation for the obligations over the regenerated tables). *)
 From Coq Require Import ZArith List Bool String.
 From BV Require Import Gen.C20Consts Gen.C20AgSkeleton.
-From BV Require Import Model.Rfcomm Model.RfcommMux Model.RfcommSm Model.HfpSlc Model.AtSkeleton.
-From BV Require Import Proofs.Rfcomm Proofs.RfcommMux Proofs.RfcommSm Proofs.HfpSlc Proofs.AtSkeleton.
+From BV Require Import Model.Rfcomm Model.RfcommMux Model.RfcommSm Model.RfcommSm2 Model.HfpSlc Model.AtSkeleton.
+From BV Require Import Proofs.Rfcomm Proofs.RfcommMux Proofs.RfcommSm Proofs.RfcommSm2 Proofs.HfpSlc Proofs.AtSkeleton.
 Import ListNotations.
 Close Scope string_scope.
 Open Scope list_scope.
@@ -141,6 +141,40 @@ Theorem C20_d20d_unfixed_refuted :
   let s := sm_run_unfixed sm_init d20d_witness in quiescent s = true /\ agree s = false.
 Proof. exact d20d_unfixed_refuted. Qed.
 Print Assumptions C20_d20d_unfixed_refuted.
+
+(* ---------- set-up and teardown of several data links on one multiplexer ----------
+   two accepted channels and one refused channel, one open_dlc in flight at a time (the
+   multiplexer's single OPENING state / open_result, as in the code), every schedule of
+   connect / open(d) / disconnect(d) by either end / multiplexer disconnect / orderly
+   close / deliveries (3 403 reachable states, complete evaluation + closure lemma):
+   no open_dlc is ever resolved with the wrong outcome (another link's DLC, refused
+   although accepted, ...), and whenever nothing is in flight both ends' DLC tables and
+   states match and no open_dlc is left pending *)
+Theorem C20_multi_setup_teardown : forall ls,
+  let s := sm2_run sm2_init ls in
+  t_bad s = false /\ (quiescent2 s = true -> agree2 s = true).
+Proof. exact multi_setup_teardown. Qed.
+Print Assumptions C20_multi_setup_teardown.
+
+Theorem C20_multi_setup_teardown_settles : forall ls,
+  let s' := drain2 24 (sm2_run sm2_init ls) in quiescent2 s' = true /\ agree2 s' = true.
+Proof. exact multi_setup_teardown_settles. Qed.
+Print Assumptions C20_multi_setup_teardown_settles.
+
+(* an open in flight completes whatever is going on for the OTHER links: after any
+   schedule, if open_dlc(d) is pending and nobody is closing link d itself, delivering
+   what is in flight leaves link d CONNECTED on both ends (absent on both for the refused
+   channel) and the multiplexer CONNECTED again *)
+Theorem C20_open_in_flight_completes : forall ls, open_completes (sm2_run sm2_init ls) = true.
+Proof. exact open_in_flight_completes. Qed.
+Print Assumptions C20_open_in_flight_completes.
+
+(* the "un-stick an OPENING multiplexer when any link closes" change is refuted *)
+Theorem C20_seeded_unstick_refuted :
+  let s := sm2_run_seeded sm2_init seeded_witness in
+  quiescent2 s = true /\ agree2 s = false /\ t_bad s = true.
+Proof. exact seeded_unstick_refuted. Qed.
+Print Assumptions C20_seeded_unstick_refuted.
 
 (* ---------- HFP service-level connection ----------
    for EVERY HF feature mask, AG feature mask, HF indicator list, codec list, call-hold
